@@ -25,7 +25,10 @@ RULE = ('(A) option algebra: Hypothesis-drawn programs of set_options / nested o
         'are run by a scheduler that owns the interleaving: at operation granularity (every drawn order of steps) and with line-level pre-emption inside pfst calls '
         '(sys.settrace in the workers, drawn pre-emption points); observed per thread: get_options() after every step, result / exception of every edit, final source and '
         'positioned dump; all must equal the same thread\'s script run alone; a new thread starts from the library defaults whatever the main thread has set; the modification '
-        'registry is empty at the end. Non-trivial = (A) a program with a nested block, a raising body or a rejected request; (B) a schedule in which some thread is '
+        'registry is empty at the end. (C) every ordered pair of table edits with default options against a baseline computed in fresh interpreters, and every '
+        'ordered pair (and a-b-a triple) of option-dependent read-only queries on ONE tree (own_src / own_lines / copy / get_slice with docstr, trivia, pars, norm_get given '
+        'to the call, by an enclosing options() block, or left to the default): each must give what it gives alone on a fresh tree (per-node caches must be keyed by the '
+        'effective option). Non-trivial = (A) a program with a nested block, a raising body or a rejected request; (B) a schedule in which some thread is '
         'pre-empted between two of its steps or inside a pfst call while another thread changes options or edits; distinct by case.')
 ASSUMPTIONS = [
     'the WARNING in options() is part of the model: only the options named by a block are restored on exit',
@@ -277,6 +280,120 @@ def enumerate_cases(tier, shard, nshards, seed):
 
             if k % nshards == shard:
                 yield {'kind': 'pair', 'a': a, 'b': b}
+
+    # every ordered pair of option-dependent read-only queries on one tree, and the triples that end in a repetition of the first
+    n = len(query_specs())
+
+    for a in range(n):
+        for b in range(n):
+            k += 1
+
+            if k % nshards == shard:
+                yield {'kind': 'queries', 'seq': [a, b]}
+                yield {'kind': 'queries', 'seq': [a, b, a]}
+
+
+# ---- read-only queries whose result depends on an option, repeated on ONE tree (per-node caches live between the calls)
+QUERY_SRC = ('class c:\n    def f(self):\n        """doc\n        more"""\n        if x:\n            """s\n            t"""\n        # lead\n        y = (a, b)  # tail\n'
+             '        z = {p, q}\n        return (yield)\n')
+
+
+def _q_own_src(t, o):
+    return t.body[0].body[0].own_src(**o)
+
+
+def _q_own_lines(t, o):
+    return '\n'.join(t.body[0].body[0].body[1].own_lines(**o))
+
+
+def _q_copy_def(t, o):
+    return t.body[0].body[0].copy(**o).src
+
+
+def _q_copy_stmt(t, o):
+    return t.body[0].body[0].body[2].copy(**o).src
+
+
+def _q_copy_tuple(t, o):
+    return t.body[0].body[0].body[2].value.copy(**o).src
+
+
+def _q_get_empty_set(t, o):
+    return t.body[0].body[0].body[3].value.get_slice(0, 0, 'elts', **o).src
+
+
+QUERIES = (
+    (_q_own_src, 'docstr', (True, False, 'strict'), False),  # last: the option can be given as a keyword of the call only (not through **options)
+    (_q_own_lines, 'docstr', (True, False, 'strict'), False),
+    (_q_copy_def, 'docstr', (True, False, 'strict'), True),
+    (_q_copy_stmt, 'trivia', (True, False, 'all'), True),
+    (_q_copy_tuple, 'pars', (True, False, 'auto'), True),
+    (_q_get_empty_set, 'norm_get', (True, False), True),
+)
+QUERY_MODES = ('call', 'block', 'default')
+
+
+def query_specs():
+    out = []
+
+    for qi, (fn, opt, values, _) in enumerate(QUERIES):
+        out.append((qi, None, 'default'))
+
+        for vi in range(len(values)):
+            out.append((qi, vi, 'call'))
+            out.append((qi, vi, 'block'))
+
+    return out
+
+
+def run_query(tree, spec):
+    qi, vi, mode = spec
+    fn, opt, values, _ = QUERIES[qi]
+
+    if mode == 'default':
+        return run_catch(lambda: fn(tree, {}))
+
+    if mode == 'call':
+        return run_catch(lambda: fn(tree, {opt: values[vi]}))
+
+    def blocked():
+        with FST.options(**{opt: values[vi]}):
+            return fn(tree, {})
+
+    return run_catch(blocked)
+
+
+def execute_queries(case, ctx):
+    """Two or three option-dependent read-only queries on the same tree: each must give what it gives alone on a fresh tree with the same
+    effective option value (given to the call, set by an enclosing block, or the default)."""
+
+    specs = query_specs()
+    seq = [specs[i] for i in case['seq']]
+    tree = FST(QUERY_SRC, 'exec')
+    src0 = tree.src
+
+    for k, spec in enumerate(seq):
+        got = run_query(tree, spec)
+        want = run_query(FST(QUERY_SRC, 'exec'), spec)
+        ctx.count('same_tree_queries')
+
+        if got != want:
+            fn, opt, values, _ = QUERIES[spec[0]]
+            how = 'default options' if spec[2] == 'default' else f'{opt}={values[spec[1]]!r} given {"to the call" if spec[2] == "call" else "by an enclosing options() block"}'
+            prev = [f'{QUERIES[s[0]][0].__name__}[{s[2]}{"" if s[1] is None else ":" + repr(QUERIES[s[0]][2][s[1]])}]' for s in seq[:k]]
+
+            raise Violation('C20.query_leak', f'{fn.__name__} with {how} after {prev} on the same tree gives {got!r}, alone on a fresh tree it gives {want!r}',
+                            f'query_leak:{fn.__name__}:{spec[2]}')
+
+    if tree.src != src0:
+        raise Violation('C20.query_leak', 'read-only queries changed the source', 'query_changed_source')
+
+    if not same_opts(FST.get_options(), library_defaults()) and threading.current_thread() is threading.main_thread() and False:
+        pass
+
+    if len({(s[0], s[1]) for s in seq}) > 1:
+        ctx.mark_nontrivial(('queries', tuple(case['seq'])), {'queries': [f'{QUERIES[s[0]][0].__name__}:{s[2]}:{None if s[1] is None else QUERIES[s[0]][2][s[1]]}' for s in seq]}
+                            if sum(case['seq']) % 53 == 0 else None)
 
 
 def prepare(tier):
@@ -807,6 +924,9 @@ def execute(case, ctx):
 
     if case['kind'] == 'pair':
         return execute_pair(case, ctx)
+
+    if case['kind'] == 'queries':
+        return execute_queries(case, ctx)
 
     if case['kind'] == 'algebra':
         execute_algebra(case, ctx)
